@@ -26,8 +26,9 @@ VARIABLES ctx,    \* index of the automaton in the dump
           mode,   \* "U" unanchored walk, "A" anchored walk, "L" local sweep
           i,      \* implementation state (index into Dump[ctx].states)
           s,      \* specification state (trie node or DEAD)
-          path    \* bytes fed so far (hidden by VIEW)
-vars == <<ctx, mode, i, s, path>>
+          path,   \* bytes fed so far (hidden by VIEW)
+          ep      \* prepared pattern list of this automaton (a cache, hidden by VIEW)
+vars == <<ctx, mode, i, s, path, ep>>
 View == <<ctx, mode, i, s>>
 
 D == Dump[ctx]
@@ -42,6 +43,7 @@ Init ==
     /\ mode \in {"U", "A", "L"}
     /\ path = <<>>
     /\ s = Root
+    /\ ep = Prep(PatsOf(Dump[ctx]), KOf(Dump[ctx]))
     /\ IF mode = "L" \/ ~Built(ctx) THEN i = 0
        ELSE i = StartOf(ctx, mode)
     \* unsupported start: nothing to walk (checked by StartErr below)
@@ -54,9 +56,9 @@ Next ==
     /\ \E bi \in 1..Len(D.bytes) :
          LET b == D.bytes[bi] IN
          /\ i' = RowOf(D.states[i], mode)[bi]
-         /\ s' = Nxt(PatsOf(D), KOf(D), mode = "A", s, Feed(b, D.ctx.ci))
+         /\ s' = Nxt(ep, PrepK(KOf(D)), mode = "A", s, Feed(b, D.ctx.ci))
          /\ path' = Append(path, b)
-    /\ UNCHANGED <<ctx, mode>>
+    /\ UNCHANGED <<ctx, mode, ep>>
 
 Spec == Init /\ [][Next]_vars
 
@@ -67,7 +69,7 @@ Report(kind, why) ==
 
 PairOK ==
     LET st == D.states[i]
-        m  == M(PatsOf(D), KOf(D), s)
+        m  == M(ep, PrepK(KOf(D)), s)
     IN
     /\ (st.d <=> s = DEAD)          \/ Report("dead", <<st.d, s>>)
     /\ (st.ms <=> m # <<>>)          \/ Report("ismatch", <<st.ms, m>>)
